@@ -50,7 +50,8 @@ KnownCase(c) ==
                         ELSE IF StringObsOK_D17(c) THEN "D17" ELSE IF StringObsOK_D40(c) THEN "D40" ELSE "none"
     [] c.kind = "rescanerr" -> IF HasNullableCounted(c.ast) THEN "D40" ELSE "none"
     [] c.kind = "matches" -> IF MatchesOK_D40(c) /\ MatchesAsBuilt(c) THEN "D40" ELSE "none"
-    [] c.kind = "cond" -> IF HasUndefQuant(c.ast, c.env, NoLoc) THEN "D15"
+    [] c.kind = "cond" -> IF c.obs # VerdictAB(c.ast, c.env) THEN "none"      \* a known finding is tolerated only with EXACTLY its effect
+                        ELSE IF HasUndefQuant(c.ast, c.env, NoLoc) THEN "D15"
                         ELSE IF HasUndefRange(c.ast, c.env, NoLoc) THEN "D19" ELSE "none"
     [] OTHER -> "none"
 
